@@ -152,6 +152,9 @@ def c12(ctx):
     run_script(ctx, rows, "bounded-exhaustive-sentences")
     run_script(ctx, gen.roundtrip_poll(ctx.rng, ctx.q(4000, 40000)), "encode-wait-poll")
     run_script(ctx, gen.sweep_pn_values(ctx.rng, "poll", step=ctx.q(3, 1), to=ctx.rng.choice([0, 1, 5])), "value-sweep-poll")
+    long_run_battery(ctx, ["poll"])
+    far_time_battery(ctx, twins=False)
+    real_clock_run(ctx)
     canary(ctx, trace, lambda rows_, rng: _corrupt_exp(rows_, rng))
     vacuity(ctx, ["exp", "grp.rtp", "poll.late.pending", "poll.early.pending"])
     ctx.extra = getattr(ctx, "extra", {})
@@ -238,6 +241,8 @@ def c15(ctx):
     rows = system_sweep(ctx, p14, "cc14", 0, 200) + system_sweep(ctx, ppn, "pn", 0, 200) \
         + system_sweep(ctx, ppoll, "poll", 2, ctx.q(150, 1000))
     run_script(ctx, rows, "system-messages-in-every-state")
+    long_run_battery(ctx, ["cc14", "pn", "poll"])
+    far_time_battery(ctx)
     canary(ctx, trace, lambda rows_, rng: _corrupt_twin(rows_, rng, "C15"))
     vacuity(ctx, ["twin.C15", "feed.system", "feed.cc14.report", "feed.pn.report", "feed.poll.report", "poll.report"])
     ctx.rule = ("design: two-channel product of each machine to a fixpoint (other channel unchanged, reports carry "
@@ -275,6 +280,7 @@ def c16_scanners(ctx):
         for _ in range(ctx.q(4, 30)):
             rows += gen.twin_transparency(ctx.rng, kind, ctx.q(1200, 4000), to=to)
     run_script(ctx, rows, "twin-insertion")
+    long_run_battery(ctx, ["cc14", "pn", "poll"])
     canary(ctx, trace, corrupt_field("eqp", False, lambda r: r["op"] == "feed" and r["m"][0] // 16 != 11 and r["m"][0] < 240))
     vacuity(ctx, ["feed.noncontrib", "twin.C16"])
 
@@ -303,6 +309,7 @@ def c17(ctx):
             i += 1
             rows.append({"op": "new", "id": i, "k": kind, "to": 0, "via": via})
     run_script(ctx, rows, "new-default")
+    long_run_battery(ctx, ["cc14", "pn", "poll"])
     canary(ctx, trace, corrupt_field("eqn", False, lambda r: r["op"] == "reset"))
     vacuity(ctx, ["twin.C17", "reset.cc14", "reset.pn", "reset.poll", "copy", "eq"])
     ctx.rule = ("design: Reset establishes Init in every reachable state (TLC, all three machines); code: in every "
@@ -343,6 +350,9 @@ def c18(ctx):
     rows = sweep_reset(ctx, p14, "cc14", 0, 200) + sweep_reset(ctx, ppn, "pn", 0, 200) + sweep_reset(ctx, pp[2], "poll", 2, ctx.q(150, 1000)) \
         + sweep_transparent(ctx, p14, "cc14", 0, 10, 200) + sweep_transparent(ctx, ppn, "pn", 0, 10, 200)
     run_script(ctx, rows, "calls-in-every-specification-state")
+    long_run_battery(ctx, ["cc14", "pn", "poll"])
+    far_time_battery(ctx)
+    real_clock_run(ctx)
     if bad and not ctx.viol:
         raise ToolError("edge replay saw allocations/panics (%s) that no recorded trace reproduces" % bad[:2])
     for t, per in (("short", 8192), ("structured", 8192), ("types", 8192), ("factory", 16384), ("ints", 20000), ("pnmsg", 16384)):
